@@ -60,6 +60,10 @@ def cases(tier, seed):
                     if kind in ("statio", "nonstatio"):
                         cfg.update(n_start=sx[0], sel_x=sx[1], cand_x=sx[2], n=sx[3], bx=1 + (si + 1) % 2)
                     out.append(dict(cfg=cfg, depth=B["depth"]))
+                    if li == 0 and si in (0, 1):
+                        # the equation declares its parameter heterogeneous (a function of the point): candidates are ranked by the
+                        # residual the loss uses, i.e. with the heterogeneous value
+                        out.append(dict(cfg=dict(cfg, hetero=True), depth=B["depth"]))
                     if kind in ("ode", "statio") and li == 0 and si in (0, 2):
                         # vector-valued residual: the squared residual is the squared norm over its components
                         out.append(dict(cfg=dict(cfg, ncomp=2), depth=B["depth"]))
